@@ -5,6 +5,7 @@ import SV.Proofs.C06
 import SV.Proofs.C06Style
 import SV.Proofs.C06Url
 import SV.Proofs.C06Headers
+import SV.Proofs.C06Session
 
 namespace SV.Props.C06
 open SV.Model.C06 SV.Spec.C06 SV.Proofs.C06
@@ -400,6 +401,180 @@ theorem wsgi_overwrites_generated_content_type :
     hGet id (lit "Content-Type") (finalHeaders id .requests (some [(lit "Content-Type", lit "text/x")]) none
       (lit "User-Agent", lit "s") (lit "X-Schemathesis-TestCaseId", lit "1") (lit "Content-Type")
       (some (lit "application/json")) false true []) = some (lit "text/x") := by
+  decide
+
+/-! ### histories of calls: a request is determined by its own case and its own configuration -/
+
+/-- **`send` does not change the case** when `merge_at` works on a copy (every transport, every client policy, whatever
+    the call configures and whatever the application answers). -/
+theorem send_leaves_case_unchanged (via : Via) (pol : ClientPolicy) (vp : Variant) (cl : Clients) (c : CaseS) (a : Call) :
+    (send via pol .repaired vp cl c a).2.1 = c :=
+  send_repaired_case via pol vp cl c a
+
+/-- **History independence** (full statement; a new client for every call, `merge_at` on a copy, `params` honoured):
+    for every history of calls — any cases, any interleaving, any configuration per call, any `Set-Cookie` answers, calls
+    with and without a session of the user's — through any of the three transports, every request sent without a session
+    of the user's carries exactly the cookies and the query entries of its own case as generated and its own
+    configuration, the recorded request is the one that was sent, and no case is changed by being sent. -/
+theorem history_independent (via : Via) : HistoryIndependent via .perCall .repaired .repaired := by
+  intro cl store calls hs
+  exact trace_of_send via .perCall .repaired .repaired (fun _ => True)
+    (fun cl c a hq hc _ => goodSend_repaired via cl c a hq hc) cl store calls hs (fun _ _ => trivial)
+
+/-- non-vacuity: a history in which a response sets cookies, a case is sent twice and a session of the user's is used -/
+example : (runTrace .wsgi .perCall .repaired .repaired ⟨[], [(lit "u", lit "1")]⟩
+      [⟨some [(lit "q", lit "x")], some [(lit "sid", lit "g")]⟩, ⟨none, none⟩]
+      [(0, ⟨some [(lit "p", lit "c")], some [(lit "auth", lit "c")], false, [(lit "w", some (lit "s"))]⟩),
+       (1, ⟨none, none, true, [(lit "w", some (lit "s"))]⟩),
+       (0, ⟨none, none, false, []⟩)]).map (fun e => (e.out.wire.query, e.out.wire.cookies)) =
+    [([(lit "q", lit "x"), (lit "p", lit "c")], [(lit "sid", lit "g"), (lit "auth", lit "c")]),
+     ([], [(lit "u", lit "1")]),
+     ([(lit "q", lit "x")], [(lit "sid", lit "g")])] := by
+  decide
+
+/-- **A client kept per application breaks it** (the full statement is false for `.perApp`): the cookie set by the
+    answer to the first call is sent with the second call, whose case has no cookies.  Kernel-checked witness. -/
+theorem memoized_client_leaks : ¬ HistoryIndependent .wsgi .perApp .repaired .repaired := by
+  intro h
+  have := h ⟨[], []⟩ [⟨none, none⟩, ⟨some [(lit "q", lit "x")], none⟩]
+    [(0, ⟨none, none, false, [(lit "session", some (lit "s3"))]⟩), (1, ⟨none, none, false, []⟩)]
+    (by decide)
+    ⟨1, ⟨none, none, false, []⟩, ⟨⟨[(lit "q", lit "x")], [(lit "session", lit "s3")]⟩, ⟨[(lit "q", lit "x")], []⟩⟩,
+      ⟨some [(lit "q", lit "x")], none⟩⟩
+    (by decide) ⟨some [(lit "q", lit "x")], none⟩ (by decide)
+  have h2 := (this.2 rfl).1
+  revert h2
+  decide
+
+/-- **The code as found** (`merge_at` updates the case's own dict, `params` shadowed) **does not have the property**:
+    the parameters and cookies configured for one call are written into the case and are sent again with the next call
+    of the same case, which configures nothing.  Kernel-checked witness. -/
+theorem history_independent_full_false : ¬ HistoryIndependent .wsgi .perCall .asFound .asFound := by
+  intro h
+  have := h ⟨[], []⟩ [⟨some [(lit "q", lit "x")], some [(lit "sid", lit "1")]⟩]
+    [(0, ⟨some [(lit "p", lit "1")], some [(lit "auth", lit "A")], false, []⟩), (0, ⟨none, none, false, []⟩)]
+    (by decide)
+    ⟨0, ⟨none, none, false, []⟩,
+      ⟨⟨[(lit "q", lit "x"), (lit "p", lit "1")], [(lit "sid", lit "1"), (lit "auth", lit "A")]⟩,
+       ⟨[(lit "q", lit "x"), (lit "p", lit "1")], [(lit "sid", lit "1"), (lit "auth", lit "A")]⟩⟩,
+      ⟨some [(lit "q", lit "x"), (lit "p", lit "1")], some [(lit "sid", lit "1"), (lit "auth", lit "A")]⟩⟩
+    (by decide) ⟨some [(lit "q", lit "x")], some [(lit "sid", lit "1")]⟩ (by decide)
+  have h2 := (this.2 rfl).2.1
+  revert h2
+  decide
+
+/-- **`params` shadowed in `RequestsTransport.serialize_case`** (with `merge_at` already on a copy): the request recorded
+    by the WSGI transport lacks the configured parameters that were sent.  Kernel-checked witness. -/
+theorem shadowed_params_break_the_record : ¬ HistoryIndependent .wsgi .perCall .repaired .asFound := by
+  intro h
+  have := h ⟨[], []⟩ [⟨none, none⟩] [(0, ⟨some [(lit "p", lit "1")], none, false, []⟩)]
+    (by decide)
+    ⟨0, ⟨some [(lit "p", lit "1")], none, false, []⟩, ⟨⟨[(lit "p", lit "1")], []⟩, ⟨[], []⟩⟩, ⟨none, none⟩⟩
+    (by decide) ⟨none, none⟩ (by decide)
+  have h2 := (this.2 rfl).2.2
+  revert h2
+  decide
+
+/-- **Strongest statement for the code as found**: history independence holds for all histories in which no call
+    configures `params` or `cookies` (what the engine does: it passes only headers), for every transport. -/
+theorem history_independent_partial (via : Via) (cl : Clients) (store : List CaseS) (calls : List (Nat × Call))
+    (hs : ∀ c ∈ store, WF (c.query.getD []) ∧ WF (c.cookies.getD []))
+    (hcalls : ∀ p ∈ calls, p.2.params = none ∧ p.2.cookies = none) :
+    ∀ e ∈ runTrace via .perCall .asFound .asFound cl store calls, ∀ c, store[e.ix]? = some c →
+      e.caseAfter = c ∧
+      (e.call.explicit = false →
+        e.out.wire.cookies = ownCookies c e.call ∧ e.out.wire.query = ownQuery c e.call ∧
+        recordedOk c e.call e.out = true) := by
+  apply trace_of_send via .perCall .asFound .asFound (fun a => a.params = none ∧ a.cookies = none) _ cl store calls hs hcalls
+  intro cl c a hq hc hp
+  rw [send_asFound_unconfigured via .perCall cl c a hq hc hp.1 hp.2]
+  exact goodSend_repaired via cl c a hq hc
+
+/-- non-vacuity of `history_independent_partial`: responses set cookies, the case is sent twice -/
+example : (∀ c ∈ [(⟨some [(lit "q", lit "x")], some [(lit "sid", lit "g")]⟩ : CaseS)], WF (c.query.getD []) ∧ WF (c.cookies.getD [])) ∧
+    (∀ p ∈ [((0 : Nat), (⟨none, none, false, [(lit "w", some (lit "s"))]⟩ : Call)), (0, ⟨none, none, false, []⟩)],
+      p.2.params = none ∧ p.2.cookies = none) ∧
+    (runTrace .wsgi .perCall .asFound .asFound ⟨[], []⟩ [⟨some [(lit "q", lit "x")], some [(lit "sid", lit "g")]⟩]
+      [(0, ⟨none, none, false, [(lit "w", some (lit "s"))]⟩), (0, ⟨none, none, false, []⟩)]).length = 2 := by
+  decide
+
+/-- **A call with a session of the user's (WSGI)**: every cookie the call asks for arrives with its value, and every
+    received cookie is one of those or is held by that session — for every client policy and both `merge_at` variants. -/
+theorem session_wire_only_expected (pol : ClientPolicy) (vm vp : Variant) (cl : Clients) (c : CaseS) (a : Call)
+    (hx : a.explicit = true) (hc : WF (c.cookies.getD [])) :
+    (∀ k v, dGet k (ownCookies c a) = some v → dGet k (send .wsgi pol vm vp cl c a).1.wire.cookies = some v) ∧
+    (∀ k v, dGet k (send .wsgi pol vm vp cl c a).1.wire.cookies = some v →
+      dGet k (ownCookies c a) = some v ∨ (dGet k (ownCookies c a) = none ∧ dGet k cl.userJar = some v)) := by
+  have hX : WF (ownCookies c a) := WF_dUpdate _ _ hc
+  have hw : (send .wsgi pol vm vp cl c a).1.wire.cookies = dUpdate cl.userJar (ownCookies c a) := by
+    simp [send, startJar, hx, callCookies, ownCookies]
+  rw [hw]
+  constructor
+  · intro k v h
+    exact dGet_dUpdate_of_get k v _ _ hX h
+  · intro k v h
+    rw [dGet_dUpdate_wf k _ _ hX] at h
+    cases hg : dGet k (ownCookies c a) with
+    | some w => rw [hg] at h; left; exact h
+    | none => rw [hg] at h; right; exact ⟨rfl, h⟩
+
+/-- **The cookies of a call do not stay in the client** (WSGI `cookie_handler`): after the call, the jar that is kept —
+    the user's session, or the client kept for the application under `.perApp` — holds no cookie under any name the call
+    asked for, whatever the application answered. -/
+theorem case_cookies_do_not_persist (pol : ClientPolicy) (vm vp : Variant) (cl : Clients) (c : CaseS) (a : Call)
+    (k : Str) (hk : k ∈ dKeys (ownCookies c a)) :
+    (a.explicit = true → dGet k (send .wsgi pol vm vp cl c a).2.2.userJar = none) ∧
+    (a.explicit = false → pol = .perApp → dGet k (send .wsgi pol vm vp cl c a).2.2.appJar = none) := by
+  constructor
+  · intro hx
+    simp only [send, storeJar, hx, if_true]
+    rw [dGet_dDelAll]
+    simp [callCookies, ownCookies] at hk ⊢
+    simp [hk]
+  · intro hx hp
+    subst hp
+    simp only [send, storeJar, hx, Bool.false_eq_true, if_false]
+    rw [dGet_dDelAll]
+    simp [callCookies, ownCookies] at hk ⊢
+    simp [hk]
+
+/-- **A session of the user's only ever gains what the application sets**: a cookie held by the session after a call
+    was held before or was set by that call's response. -/
+theorem session_jar_only_from_responses (pol : ClientPolicy) (vm vp : Variant) (cl : Clients) (c : CaseS) (a : Call)
+    (hx : a.explicit = true) (k v : Str)
+    (h : dGet k (send .wsgi pol vm vp cl c a).2.2.userJar = some v) :
+    dGet k cl.userJar = some v ∨ (k, some v) ∈ a.setCookies := by
+  simp only [send, storeJar, startJar, hx, if_true] at h
+  rw [dGet_dDelAll] at h
+  by_cases hk : k ∈ dKeys (callCookies c a)
+  · simp [hk] at h
+  · simp only [hk, if_false] at h
+    rcases dGet_applySetCookies k v _ _ h with h1 | h1
+    · left
+      rw [dGet_dUpdate_notin k _ _ hk] at h1
+      exact h1
+    · right; exact h1
+
+/-- **`cookie_handler` cleans up**: with an empty jar and an answer without `Set-Cookie`, the client's jar is empty again
+    after the call, so a client kept per application would leak only what responses set. -/
+theorem cookie_handler_cleans_up (vm vp : Variant) (cl : Clients) (c : CaseS) (a : Call)
+    (hx : a.explicit = false) (hj : cl.appJar = []) (hs : a.setCookies = []) :
+    (send .wsgi .perApp vm vp cl c a).2.2.appJar = [] := by
+  simp only [send, storeJar, startJar, hx, Bool.false_eq_true, if_false, hj, hs, applySetCookies, List.foldl_nil]
+  apply eq_nil_of_all_none
+  intro k
+  rw [dGet_dDelAll]
+  by_cases hk : k ∈ dKeys (callCookies c a)
+  · simp [hk]
+  · simp only [hk, if_false]
+    rw [dGet_dUpdate_notin k _ _ hk]
+    rfl
+
+/-- as found, `cookie_handler` deletes by name: a cookie of the user's own session that the case shadows is gone from
+    the session afterwards (witness; not a violation of this property: nothing is added to a request) -/
+theorem session_cookie_shadowed_by_case_is_deleted :
+    (send .wsgi .perCall .asFound .asFound ⟨[], [(lit "sid", lit "u")]⟩ ⟨none, some [(lit "sid", lit "g")]⟩
+      ⟨none, none, true, []⟩).2.2.userJar = [] := by
   decide
 
 end SV.Props.C06
